@@ -19,7 +19,7 @@ var strSym = map[string][]rune{
 	"ql1": {'“'}, "qr1": {'”'}, "ql2": {'「'}, "qr2": {'」'}, "ql3": {'‘'}, "qr3": {'’'}, "ql4": {'『'}, "qr4": {'』'}, "ql5": {'《'}, "qr5": {'》'},
 	"bt": {'`'}, "CR": {'\r'}, "LF": {'\n'}, "TAB": {'\t'}, "SP": {' '},
 	"C": {'C'}, "R": {'R'}, "L": {'L'}, "F": {'F'}, "T": {'T'}, "A": {'A'}, "B": {'B'}, "S": {'S'}, "P": {'P'}, "K": {'K'}, "U": {'U'},
-	"+": {'+'}, "1": {'1'}, "8": {'8'}, "D": {'D'},
+	"+": {'+'}, "0": {'0'}, "1": {'1'}, "8": {'8'}, "D": {'D'},
 	"x": {'x', '甲', ' ', '，', '1', 'c', '😀', '{', '：', '；'},
 }
 
